@@ -360,7 +360,10 @@ func (f *Func) reachTarget(
 			skip = true
 
 		case *typedArgVertex:
-			if v.Value.IsValid() {
+			// A typed argument that was valued while another named value
+			// was being produced is resolved again: it should prefer the
+			// value named like the one we are producing now.
+			if v.Value.IsValid() && (state.Name == "" || v.valuedFor == "" || v.valuedFor == state.Name) {
 				skip = true
 				argMap[graph.VertexID(out)] = v.Value
 			}
@@ -546,6 +549,7 @@ func (f *Func) reachTarget(
 					// The value of this is the last value vertex we saw. The graph
 					// walk should ensure this is the correct type.
 					v.Value = state.Value
+					v.valuedFor = state.Name
 				}
 
 				// Setup our mapping so that we know that this wildcard
